@@ -78,7 +78,7 @@ variable {α : Type}
 /-- widths do not depend on the cell type: evaluate them at the trivial ops -/
 def unitOps : Ops Unit :=
   { one := (), mul := fun _ _ => (), mono := fun _ => (), cos := id, sin := id, atan2 := fun _ _ => (), sk := fun _ _ _ => (),
-    skInv := fun _ _ _ => (), rbf := fun _ _ _ => (), kern := fun _ _ _ => () }
+    skInv := fun _ _ _ => (), rbf := fun _ _ _ _ => (), kern := fun _ _ _ _ => () }
 
 mutual
 /-- attributes of every estimator of the tree in pre-order (each stage, then its sub-stages) -/
